@@ -1,5 +1,5 @@
 PROP = {
-    "groups": ["e2e-fidelity", "e2e-fds"],
+    "groups": ["e2e-fidelity", "e2e-fds", "codec"],
     "timeout": 600,
     "rule": "end-to-end transfers: the real client (trzsz.NewTrzszFilter, in-process) against the real trz/tsz binaries built from /repo (child processes) over a fault-free transport that re-chunks every write at random; configurations drawn from direction x base64/binary x escape-all x compress auto/yes/no x protocol field absent/2/3/4/9 (handshake rewritten by the transport) x buffer limit x overwrite x directory mode x quiet; trees with sizes 0,1,511..513,4096,70000,131071/131072,700000, compressible/incompressible/protected-byte content, unicode names, empty and nested directories, equal base names; every run is non-trivial (a complete transfer); distinct = distinct configuration+tree seed",
     "trusted": ["modelled, not verified: zstd/zlib/base64 library codecs, the OS file system, the Go runtime; the message-level model is tied by the typed transcript, payload fidelity at scale by the direct oracle (destination = source)"],
